@@ -349,34 +349,18 @@ Proof.
   apply pres_bind; [apply Renv_imps_set|]. intros _.
   assert (forall is base my, preserves (Renv root name g) (import_loop W f (eff_root root name) is base my)) as Hloop.
   { induction is as [|[n merge] rest IHl]; intros base my; [apply pres_ret|].
-    change (preserves (Renv root name g)
-      (s <- imps_get n ;;
-       match s with
-       | Some i =>
-           if is_evaluating i then err ;;; import_loop W f (eff_root root name) rest base my
-           else import_loop W f (eff_root root name) rest
-                  (if merge then (match is_value i with Some v => v | None => [] end) ++ base else base)
-                  (ainsert n (match is_value i with Some v => v | None => [] end) my)
-       | None =>
-           failed <- call W ;;
-           emit (EvLoad n) ;;;
-           match (if failed then LoadFail
-                  else match alookup n (w_envs W) with Some l => l | None => LoadFail end) with
-           | LoadFail => err ;;; import_loop W f (eff_root root name) rest base my
-           | LoadNoParse => err ;;; import_loop W f (eff_root root name) rest base my
-           | LoadOk d' =>
-               v <- eval_env W f (eff_root root name) n d' ;;
-               imps_set n {| is_evaluating := false; is_value := Some v |} ;;;
-               import_loop W f (eff_root root name) rest (if merge then v ++ base else base) (ainsert n v my)
-           end
-       end)).
+    rewrite import_loop_cons.
     apply pres_bind; [apply pres_imps_get|]. intros [i|].
-    - destruct (is_evaluating i); [|apply IHl].
+    - destruct (is_evaluating i); [|destruct (is_value i); apply IHl].
       apply pres_bind; [apply Renv_add_err|]. intros _. apply IHl.
     - intros s Hs. rewrite bind_run, bind_run.
+      assert (preserves (Renv root name g)
+                (err ;;; imps_set n {| is_evaluating := false; is_value := None |} ;;;
+                 import_loop W f (eff_root root name) rest base my)) as Lfail.
+      { apply pres_bind; [apply Renv_add_err|intros _]. apply pres_bind; [apply Renv_imps_set|intros _; apply IHl]. }
       destruct (if fst (call W s) then LoadFail else match alookup n (w_envs W) with Some l => l | None => LoadFail end) as [| |d'].
-      + apply (pres_bind (Renv root name g)); [apply Renv_add_err|intros _; apply IHl|]. apply Renv_load, Hs.
-      + apply (pres_bind (Renv root name g)); [apply Renv_add_err|intros _; apply IHl|]. apply Renv_load, Hs.
+      + apply Lfail. apply Renv_load, Hs.
+      + apply Lfail. apply Renv_load, Hs.
       + rewrite bind_run.
         apply (pres_bind (Renv root name g)); [apply Renv_imps_set|intros _; apply IHl|].
         apply Renv_nest with (n := n) (s := s); [exact Hs|]. apply IH. apply Renv_refl. }
